@@ -133,7 +133,9 @@ class FunctionCall:
         if not params:
             return
 
-        expected = list(params.values())[0].annotation  # it's not possible to have more than 1
+        param = list(params.values())[0]  # it's not possible to have more than 1
+        self._assert_param_has_type_annotation(param=param)
+        expected = param.annotation
 
         for arg in self.args:
             assert_value_matches_type(
